@@ -126,6 +126,17 @@ func runLayout(l layout) (viol []string, sig string) {
 			os.WriteFile(p, b, 0o644)
 		case "dir":
 			os.MkdirAll(p, 0o755)
+		case "dir-with-copy", "dir-with-tool":
+			// a sub-directory that itself holds an executable: a parked copy named like an installed
+			// plugin, or a helper whose name is no plugin name at all
+			os.MkdirAll(p, 0o755)
+			inner := "10-ok-a"
+			if e.Kind == "dir-with-tool" {
+				inner = "helper"
+			}
+			if err := linkOrCopy(self, filepath.Join(p, inner)); err != nil {
+				return []string{"machinery: " + err.Error()}, "C18|machinery"
+			}
 		case "garbage":
 			os.WriteFile(p, []byte("this is not an executable format\n"), 0o755)
 		}
@@ -356,6 +367,12 @@ func generate(thorough bool) []layout {
 			out = append(out, layout{Name: fmt.Sprintf("dropins-%s-%d", f, mask), Entries: []entry{{f, "exec"}}, Dropins: d})
 		}
 	}
+	// sub-directories with executables inside: nothing in them is a plugin
+	out = append(out, layout{Name: "subdir-copy", Entries: []entry{{"10-ok-a", "exec"}, {"old", "dir-with-copy"}, {"20-ok-c", "exec"}}})
+	out = append(out, layout{Name: "subdir-tool", Entries: []entry{{"10-ok-a", "exec"}, {"tools", "dir-with-tool"}}})
+	// an index-specific drop-in that exists but is empty still wins over the common one
+	out = append(out, layout{Name: "dropins-empty-specific", Entries: []entry{{"10-ok-a", "exec"}}, Dropins: map[string]string{"10-ok-a.conf": "", "ok-a.conf": "generic:a"}})
+	out = append(out, layout{Name: "dropins-empty-generic", Entries: []entry{{"10-ok-a", "exec"}}, Dropins: map[string]string{"ok-a.conf": ""}})
 	// the same plugin installed at two indices: each instance gets its own index-specific drop-in, else
 	// the common one
 	for mask := 0; mask < 8; mask++ {
